@@ -470,6 +470,8 @@ pub mod q {
         flatten_ops!(fl_2_0, U2, 2, U0, 0, 4);
         flatten_ops!(fl_1_1, U1, 1, U1, 1, 5);
         flatten_ops!(fl_2_3, U2, 2, U3, 3, 10);
+        flatten_ops!(fl_3_2, U3, 3, U2, 2, 10);
+        flatten_ops!(fl_3_1, U3, 3, U1, 1, 7);
         native_ops!(nat1, U1, 1, (a), 5);
         native_ops!(nat3, U3, 3, (a, b, c), 7);
     }
@@ -497,7 +499,8 @@ pub mod t {
         remove_ops!(rm5, U5, 5, 9);
         remove_ops!(rm8, U8, 8, 12);
         flatten_only!(fl_0_3, U0, 0, U3, 3, 7);
-        flatten_ops!(fl_3_2, U3, 3, U2, 2, 10);
+        flatten_ops!(fl_5_2, U5, 5, U2, 2, 14);
+        flatten_ops!(fl_6_1, U6, 6, U1, 1, 10);
         flatten_ops!(fl_2_2, U2, 2, U2, 2, 8);
         flatten_ops!(fl_4_2, U4, 4, U2, 2, 12);
         flatten_ops!(fl_1_4, U1, 1, U4, 4, 8);
